@@ -4,7 +4,7 @@ from fractions import Fraction
 import common, extract
 import oracle_tree as ot
 
-LEAN_MODULE = ["ESRVerif.Props.C18", "ESRVerif.Props.C18b"]
+LEAN_MODULE = ["ESRVerif.Props.C18", "ESRVerif.Props.C18b", "ESRVerif.Props.C18c"]
 LEVEL = "other"
 LEVEL_TEXT = ("Lean theorems over a hand model of DecoratedNode.__init__/to_list/count_nodes, of the relabelling pass of "
               "fit_from_string/string_to_aifeyn and of the choice string_to_node makes among its four parse variants (special-case tables, string "
@@ -15,16 +15,28 @@ LEVEL_TEXT = ("Lean theorems over a hand model of DecoratedNode.__init__/to_list
               "variants raise; float replacement keeps every numeric label unless requested and never for direct children of pow, parameters "
               "numbered in order. PARTIAL: which sympy tree each of sympify/kernS/powsimp/factor/evalf produces for a string, and that str() of a "
               "sympy number denotes its value, are third-party behaviour (the four candidate trees are input of the model; assumed, sampled); two "
-              "to_list branches that emit a binary label with one operand are excluded by hypothesis and reported as a defect.")
+              "to_list branches that emit a binary label with one operand are excluded by hypothesis and reported as a defect.  "
+              "The models are functions of their arguments; that the code is one is a checked obligation (Props/C18c): string_api_call_local - decided on a table "
+              "regenerated from fit_single.py (cells the string API touches across calls, from the C16 cell analysis; origin of every list it rewrites in place) - no carried "
+              "cell is changed by the string API's own code unless every read of it is copied first, and the relabelled list is created in the same call on every path; "
+              "relabel_history_independent (a memo that returns copies: every history of calls returns what fresh calls return) and shared_list_leaks (a memo that returns "
+              "the cached list: replace_floats=True then False returns the float-replaced labels).  Sampled on the real code: call-sequence histories in one process, every "
+              "ordered pair of option settings per formula, each call against the same call as the first call of a fresh process.")
 TECHNIQUE = ("Lean 4 proof on a hand model + regenerated tables; model-code correspondence on grammar-generated formulas: ALL FOUR candidate trees of "
              "the real run (the trees string_to_node itself saw, via a memoised string_to_expr) are serialised and fed to the model's selection, "
              "compared with the real string_to_node under six flag settings and with the string API end to end; independent prefix-tree evaluator "
-             "vs sympy.lambdify of the formula on the real string API; order-insensitive minimum-node-count oracle on the real string_to_node")
-RULE = ("formula strings drawn from a grammar (x, a0..a3, integers, floats, + - * / ** unary minus, reciprocals, pow with symbolic and numeric "
+             "vs sympy.lambdify of the formula on the real string API; order-insensitive minimum-node-count oracle on the real string_to_node; "
+             "Lean decision over the regenerated cell / alias table of the string API + induction over call histories of a copying memo; PRNG call-sequence histories of "
+             "string_to_aifeyn / fit_from_string (optimiser stubbed) / string_to_node in one process (Euler circuit over the 8 option settings per formula: all 64 ordered "
+             "pairs on every seed) against fresh-process references")
+RULE = ("call histories: one case = one (basis, formula) of a history = 65 calls covering all 64 ordered pairs of the 8 option settings; "
+        "formula strings drawn from a grammar (x, a0..a3, integers, floats, + - * / ** unary minus, reciprocals, pow with symbolic and numeric "
         "exponents, the unary operators of the basis) for each of the six shipped bases; distinct = (basis, formula); non-trivial = at least "
         "three labels and at least one evaluation point where all power bases are positive")
 EXPLANATION = LEVEL_TEXT
-TRUSTED = ["hand model ESRVerif/Model/ToList.lean, Model/ToListSelect.lean (tied by correspondence on the serialised sympy trees: class name, is_number, is_symbol, str, exact value, args / as_two_terms)",
+TRUSTED = ["harness/extractors/strapi.py over harness/extractors/memstate.py (which cells survive a call and who touches them: C16's analysis; origin of the in-place rewritten lists: a result of .to_list(), a comprehension / display / [..]*n, list(), sorted(), .copy(), [:], copy.copy/deepcopy, a local alias of such, a helper of fit_single.py all of whose returns are such and that does not also store the object into a cell; label lists hold strings, so a shallow copy is a copy; anything else fails closed)",
+           "harness/workers/strapi_seq.py, harness/strapi_hist.py (histories and fresh-process references: a forked child of an interpreter that imported ESR and never called the API)",
+           "hand model ESRVerif/Model/ToList.lean, Model/ToListSelect.lean (tied by correspondence on the serialised sympy trees: class name, is_number, is_symbol, str, exact value, args / as_two_terms)",
            "harness/extractors/tolist.py + harness/extractors/_norm_c18.py (special-case table, to_list branches, label renaming, the skeleton of string_to_node, check_operators' chain, call-site flags: each function is run symbolically into a normal form that is matched against the shape the Lean model has; the normalisations, all value-preserving and never dropping or adding an evaluation that can raise, are: substitution of pure locals / self attributes / list items by the expression assigned (renames, hoisted temporaries, tuple and chained assignment, tuple unpacking of as_two_terms / string_to_node / check_tree), conditional expression = if/else, early return = result variable, else-after-return, pass = return None, guard inversion, negation normal form (double negation, De Morgan, not == / != / is / in), str(<int>) = literal, tuple = list after `in`, range(len(L)) = enumerate(L) item loops, comprehension = append / += loop, one level of private-helper inlining, literal-index or literal-tuple-loop forms of the four try blocks (unrolled, constant tests folded), 'a'+str(k) = 'a%d'%k = 'a{}'.format(k) = f'a{k}' for an enumerate index; anything else fails closed)",
            "class invariant used by the translator: every DecoratedNode built from an expression has the attributes __init__ assigns unconditionally (read off __init__ on every run), a basis is a list of three lists; sympy's as_two_terms returns a pair, string_to_node / check_tree return triples",
            "sympy 1.14: sympify/kernS/evalf/powsimp/factor/str/== on numbers (which tree each parse variant yields is observed, not modelled)",
@@ -40,7 +52,7 @@ ASSUMPTIONS = ["str() of a sympy number denotes its value (Float: 15 significant
                "an integer label beyond the range of a double (>= 2^1024 - 2^970) is not a number for generator.is_float (float(<int>) raises OverflowError): model and in-basis oracle follow the code"]
 # tables whose committed version may stand in as a hand-written model when the translator cannot read the source;
 # value = the correspondence that then ties it to the code (common.prove / common.decide)
-FALLBACK = {'ToList': 'real DecoratedNode / to_list / relabelling / check_operators / string_to_node (its string_to_expr calls traced in order, six flag settings) and the string API on grammar formulas vs the Lean to_list, relabel and selection models built from the committed table, at thorough depth', 'Shape': 'basis tables: labels_to_shape correspondence'}
+FALLBACK = {'StrApi': 'call-sequence histories of the real string API in one process (every ordered pair of option settings on every formula of the pool, each call against the same call as the first call of a fresh process), at thorough depth', 'ToList': 'real DecoratedNode / to_list / relabelling / check_operators / string_to_node (its string_to_expr calls traced in order, six flag settings) and the string API on grammar formulas vs the Lean to_list, relabel and selection models built from the committed table, at thorough depth', 'Shape': 'basis tables: labels_to_shape correspondence'}
 MODELLED = ["generator.py:DecoratedNode.__init__", "generator.py:DecoratedNode.to_list", "generator.py:DecoratedNode.count_nodes",
             "generator.py:DecoratedNode.is_unity", "generator.py:string_to_node", "generator.py:string_to_expr", "generator.py:labels_to_shape",
             "generator.py:is_float", "fit_single.py:fit_from_string", "fit_single.py:string_to_aifeyn", "generator.py:check_tree",
